@@ -99,6 +99,12 @@ func sendRequestToTarget(req *http.Request, httpsDefault bool) (*http.Response, 
 	// Remove hop-by-hop headers in the request that should not be forwarded to the target server.
 	removeHopByHopHeaders(req.Header)
 
+	if _, sent := req.Header["User-Agent"]; !sent {
+		// net/http introduces itself ("Go-http-client/1.1") when a request has no User-Agent at all;
+		// an empty value makes it send none, which is what the client sent.
+		req.Header.Set("User-Agent", "")
+	}
+
 	slog.Debug("Sending request", "url", req.URL, "method", req.Method)
 	resp, err := upstreamClient.Do(req)
 	if err != nil {
